@@ -105,6 +105,25 @@ def generate(rng, tier):
                         g = _zero_boundary(g)
                     adds = _rand_adds(rng, R, C, T, k, True, closed)
                     yield _case('add/stable/%s/%s' % ('closed' if closed else 'open', sk), g, closed, T, adds)
+            # two or three additions at the SAME timestep on DIFFERENT cells (a schedule keyed by timestep
+            # alone would lose all but one): stable configuration (the property) and toppling one (model)
+            for closed in (False, True):
+                cells = [(i, j) for i in range(R) for j in range(C)
+                         if not (closed and _is_boundary(R, C, i, j))]
+                if len(cells) >= 2:
+                    for stable_cfg in (True, False):
+                        T = rng.randint(2, 6)
+                        ts = rng.randint(1, T - 1)
+                        pick = rng.sample(cells, min(len(cells), rng.choice([2, 3])))
+                        g = _grid(rng, R, C, 0, 3 if stable_cfg else 12)
+                        if closed:
+                            g = _zero_boundary(g)
+                        yield _case('add/same_step/%s/%s/%s' % ('stable' if stable_cfg else 'toppling',
+                                                                'closed' if closed else 'open', sk),
+                                    g, closed, T, [(i, j, ts) for (i, j) in pick])
+            # every cell far above the threshold (>= 8: `centre % K` instead of `centre - K` is wrong here)
+            yield _case('open/high/%s' % sk, _grid(rng, R, C, 8, 15), False, rng.randint(2, 5))
+            yield _case('closed/high/%s' % sk, _zero_boundary(_grid(rng, R, C, 8, 15)), True, rng.randint(2, 5))
             # additions that never fire (t = 0, t >= T), duplicates, cells outside the grid
             T = rng.randint(2, 6)
             i, j = rng.randrange(R), rng.randrange(C)
